@@ -235,7 +235,7 @@ func ruleG3(c *Ctx, id string) {
 				n, fl, base, _ = loadedField(b)
 				a, b = b, a
 			}
-			if n != V.Inode || fl != "Gen" || base != res {
+			if n != V.Inode || fl != "Gen" || base != stripConv(res) {
 				return false, false
 			}
 			mc, fl2 := fieldOfCallResult(b)
@@ -284,7 +284,7 @@ func ruleG3(c *Ctx, id string) {
 		ok := guardedBy(g, r.Block(), func(cd Cond) (bool, bool) {
 			n, fl, base, _ := loadedField(cd.X)
 			k, isk := constInt(cd.Y)
-			if n == V.Inode && fl == "Kind" && base == res && isk && k == 0 {
+			if n == V.Inode && fl == "Kind" && base == stripConv(res) && isk && k == 0 {
 				if cd.Op == token.EQL {
 					return true, false
 				}
